@@ -74,7 +74,7 @@ def check_one(case) -> core.Out:
     import pyubx2
 
     k = case["kind"]
-    logging.disable(logging.CRITICAL)
+    core.log_off()
     try:
         if k == "reader":
             data = bytes(case["data"])
@@ -251,7 +251,7 @@ def check_one(case) -> core.Out:
             return out
         raise ValueError(k)
     finally:
-        logging.disable(logging.NOTSET)
+        core.log_on()
 
 
 OPTS = st.fixed_dictionaries({
@@ -361,7 +361,7 @@ def run_shard(spec, ctx, acc):
                 case = {"kind": "reader", "data": data, "items": None, "long": True,
                         "opts": {"msgmode": 0, "validate": 1, "parsebitfield": 1, "quitonerror": 0, "protfilter": 7},
                         "chunks": [step] * (len(data) // step + 2), "bufsize": bufsize, "end": end}
-                core.handle(acc, check(case), case, known)
+                core.handle(acc, core.checked(check, case), case, known)
         return
     if what == "pauses":
         # quiet periods: the receive times out once at a frame boundary, the consumer
